@@ -10,6 +10,10 @@ Definition static_immutable (s : string * string * string) : bool := let '(_, _,
 Definition statics_ok : bool := forallb static_immutable gen_statics.
 Definition mutable_statics : list (string * string * string) := filter (fun s => negb (static_immutable s)) gen_statics.
 
+(* C19 / C14: no data member of any library class has shared-ownership, raw-pointer or reference type - so a copy of a codec or
+   value object shares no state with its original, and two instances can only be connected through a static object (above) *)
+Definition no_aliasing_members : bool := match gen_aliasing_members with [] => true | _ => false end.
+
 (* C20 (i): scalar / pointer / array locals without initialiser and raw allocation forms. The one entry allowed is assigned
    through an out-parameter (GetHeader sets *payloadPtr first thing) before it is read. *)
 Definition alloc_allowed (a : string * string * string * string) : bool :=
